@@ -55,7 +55,10 @@ CSS_CALLBACK = {
     'param': 'callback',
     'args': ['token_type', 'start', 'end', 'delimiter'],
     'requires': ['0 <= start', 'start <= end', 'end <= len(source)',
-                 'delimiter == -1 or (0 <= delimiter and delimiter < len(source))'],
+                 'delimiter == -1 or (0 <= delimiter and delimiter < len(source))',
+                 # a token ends at or before its delimiter character (an empty selector `{` and a block
+                 # end `}` end right after it)
+                 'delimiter == -1 or end <= delimiter + 1'],
     'returns': 'any',
 }
 
@@ -78,3 +81,96 @@ fn('emmet.css_matcher.scan:scan', props=P,
                             'css_state_ok(state, scanner.pos)'],
               'decreases': 'scanner.end - scanner.pos'}})
 fn('emmet.css_matcher.scan:scan.<locals>.notify', inline=True, props=P)
+
+# ---------------------------------------------------------------------------------------
+# parse.py
+# ---------------------------------------------------------------------------------------
+fn('emmet.css_matcher.parse:is_operator', inline=True, pure=True, props=P)
+
+fn('emmet.css_matcher.parse:is_minus_operator', props=P,
+   params={'scanner': 'Scanner'}, returns='bool',
+   requires=['wf(scanner)'],
+   ensures=CONSUMER + ['implies(not result, scanner.pos == old(scanner.pos))',
+                       'implies(result, scanner.pos == old(scanner.pos) + 2)'],
+   modifies=['scanner.pos'])
+
+define('range_in', ['r', 'lo', 'hi'], 'lo <= r[0] and r[0] <= r[1] and r[1] <= hi')
+
+fn('emmet.css_matcher.parse:split_value', props=P,
+   params={'value': 'str', 'offset': 'int'}, returns='list[tuple[int,int]]',
+   requires=[],
+   ensures=['fresh(result)',
+            'forall(0, len(result), lambda i: range_in(result[i], offset, offset + len(value)))'],
+   modifies=[],
+   locals={'result': 'list[tuple[int,int]]'},
+   loops={0: {'anchor': 'while not scanner.eof()',
+              'invariant': ['wf(scanner)', 'scanner.pos <= scanner.end', 'scanner.end == len(value)',
+                            'fresh(result)',
+                            'start == -1 or (0 <= start and start < scanner.pos)',
+                            'forall(0, len(result), lambda i: range_in(result[i], offset, offset + len(value)))'],
+              'decreases': 'scanner.end - scanner.pos'}})
+
+# ---------------------------------------------------------------------------------------
+# __init__.py helpers
+# ---------------------------------------------------------------------------------------
+fn('emmet.css_matcher:inner_range', props=P,
+   params={'source': 'str', 'start': 'int', 'end': 'int'}, returns='tuple[int,int]|None',
+   # weakest precondition for index safety of source[start] / source[end - 1]
+   requires=['0 <= start', 'end <= len(source)'],
+   ensures=['result is None or (old(start) <= result[0] and result[0] < result[1] and result[1] <= old(end))'],
+   modifies=[],
+   loops={0: {'anchor': 'while start < end and is_space(source[start])',
+              'invariant': ['old(start) <= start', 'end == old(end)', 'start <= max(old(start), end)'],
+              'decreases': 'end - start'},
+          1: {'anchor': 'while end and end > start and is_space(source[end - 1])',
+              'invariant': ['old(start) <= start', 'end <= old(end)', 'start <= max(old(start), old(end))',
+                            'end >= min(start, old(end))'],
+              'decreases': 'end'}})
+
+# ---------------------------------------------------------------------------------------
+# match / balanced_*: closures over pooled range lists (DESIGN.md 1.5)
+# ---------------------------------------------------------------------------------------
+cls('emmet.css_matcher:MatchResult',
+    fields={'type': 'str', 'start': 'int', 'end': 'int', 'body_start': 'int|None', 'body_end': 'int|None'})
+fn('emmet.css_matcher:MatchResult.__init__', inline=True, props=P)
+fn('emmet.css_matcher:alloc_range', inline=True, props=P)
+fn('emmet.css_matcher:release_range', inline=True, props=P)
+
+# a pooled token [start, end, delimiter] as the scanner reported it
+define('tok_ok', ['t', 'n'],
+       'len(t) == 3 and 0 <= t[0] and t[0] <= t[1] and t[1] <= n and (t[2] == -1 or (0 <= t[2] and t[2] < n))')
+define('match_ok', ['m', 'n'],
+       '0 <= m.start and m.start <= m.end and m.end <= n and m.body_start is not None and m.body_end is not None '
+       'and 0 <= m.body_start and m.body_end <= n '
+       "and (m.type != 'property' or m.body_start <= m.body_end)")
+
+CB_PARAMS = {'token_type': 'str', 'start': 'int', 'end': 'int', 'delimiter': 'int'}
+CB_REQ = ['0 <= start', 'start <= end', 'end <= len(source)',
+          'delimiter == -1 or (0 <= delimiter and delimiter < len(source))',
+          'delimiter == -1 or end <= delimiter + 1']
+
+MATCH_CAP = {'pool': 'list[list[int]]', 'stack': 'list[list[int]]', 'result': 'list[MatchResult|None]',
+             'pending_property': 'list[list[int]|None]', 'pos': 'int', 'source': 'str'}
+MATCH_INV = ['len(result) == 1', 'len(pending_property) == 1', 'pool is not stack',
+             # ownership: everything the closure writes was allocated by this call of match()
+             'owned(pool) and owned(stack) and owned(result) and owned(pending_property)',
+             'forall(0, len(stack), lambda i: owned(stack[i]))', 'forall(0, len(pool), lambda i: owned(pool[i]))',
+             'pending_property[0] is None or owned(pending_property[0])',
+             'result[0] is None or owned(result[0])',
+             'forall(0, len(stack), lambda i: tok_ok(stack[i], len(source)))',
+             'forall(0, len(pool), lambda i: len(pool[i]) == 3)',
+             'pending_property[0] is None or tok_ok(pending_property[0], len(source))',
+             'result[0] is None or match_ok(result[0], len(source))']
+
+fn('emmet.css_matcher:match.<locals>.release_pending', inline=True, props=P)
+fn('emmet.css_matcher:match.<locals>.scan_callback', props=P,
+   params=CB_PARAMS, returns='bool|None', captures=MATCH_CAP,
+   requires=CB_REQ, closure_invariant=MATCH_INV, modifies=['owned'])
+
+fn('emmet.css_matcher:match', props=P,
+   params={'source': 'str', 'pos': 'int'}, returns='MatchResult|None',
+   requires=[],
+   ensures=['result is None or match_ok(result, len(source))'],
+   modifies=[], allocates=True,
+   locals={'pool': 'list[list[int]]', 'stack': 'list[list[int]]', 'result': 'list[MatchResult|None]',
+           'pending_property': 'list[list[int]|None]'})
